@@ -68,118 +68,136 @@ func (a *Adv) ContractProbes() int {
 		if len(orig.StorageProofs) == 0 {
 			continue
 		}
-		sp := orig.StorageProofs[0]
-		// the contract being proven: live in the store, or formed / revised earlier in this block (then skip: terms not in the store)
-		e, ok := a.G.C.Store.FC[sp.ParentID]
-		if !ok {
-			continue
-		}
-		inBlock := false
-		for _, tx := range a.Honest.Transactions[:ti] {
-			for _, r := range tx.FileContractRevisions {
-				inBlock = inBlock || r.ParentID == sp.ParentID
+		probed := false
+		for pi := range orig.StorageProofs {
+			pi := pi
+			sp := orig.StorageProofs[pi]
+			// every proof of a transaction is judged on its own, whatever the proofs listed before it were (a proof of an
+			// empty file, which needs no Merkle check, in particular)
+			suffix := ""
+			if pi > 0 {
+				suffix = "/after-other-proofs"
+				for _, q := range orig.StorageProofs[:pi] {
+					if qe, ok := a.G.C.Store.FC[q.ParentID]; ok && qe.FileContract.Filesize == 0 {
+						suffix = "/after-a-proof-of-an-empty-file"
+					}
+				}
 			}
-		}
-		if inBlock {
-			continue
-		}
-		fc := e.FileContract
-		fv, known := a.G.W.view(fc.FileMerkleRoot, fc.Filesize)
-		if !known || fc.WindowStart == 0 {
-			continue
-		}
-		windowID := a.G.C.Store.CI[fc.WindowStart-1].ChainIndex.ID
-		idx := ref.ChallengeIndex(fc.Filesize, windowID, e.ID)
-		nLeaves := ref.NumLeaves64(fc.Filesize)
-		mk := func(name string, f func(p *types.StorageProof) bool) {
-			blk := CloneBlock(a.Honest)
-			p := &blk.Transactions[ti].StorageProofs[0]
-			if !f(p) {
-				return
+			// the contract being proven: live in the store, or formed / revised earlier in this block (then skip: terms not in the store)
+			e, ok := a.G.C.Store.FC[sp.ParentID]
+			if !ok {
+				continue
 			}
-			if p.ParentID == sp.ParentID && refV1ProofRoot(era, p.Leaf, p.Proof, idx, fc.Filesize) == fc.FileMerkleRoot {
-				return // by the tree definition the altered proof still proves the challenged leaf: not an unsound proof
+			inBlock := false
+			for _, tx := range a.Honest.Transactions[:ti] {
+				for _, r := range tx.FileContractRevisions {
+					inBlock = inBlock || r.ParentID == sp.ParentID
+				}
 			}
-			if a.emit(blk, "v1-proof/"+name+"/era-"+era, "reject", map[string]string{"leaves": sizeClassLeaves(nLeaves)}, nil) {
-				n++
+			if inBlock {
+				continue
 			}
-		}
-		if nLeaves > 1 {
-			mk("other-leaf", func(p *types.StorageProof) bool {
-				j := fv.other(t, idx, "otherLeaf")
-				leaf, path := fv.proof(j)
-				if leaf == p.Leaf && samePath(path, p.Proof) {
+			fc := e.FileContract
+			fv, known := a.G.W.view(fc.FileMerkleRoot, fc.Filesize)
+			if !known || fc.WindowStart == 0 {
+				continue
+			}
+			windowID := a.G.C.Store.CI[fc.WindowStart-1].ChainIndex.ID
+			idx := ref.ChallengeIndex(fc.Filesize, windowID, e.ID)
+			nLeaves := ref.NumLeaves64(fc.Filesize)
+			mk := func(name string, f func(p *types.StorageProof) bool) {
+				blk := CloneBlock(a.Honest)
+				p := &blk.Transactions[ti].StorageProofs[pi]
+				if !f(p) {
+					return
+				}
+				if p.ParentID == sp.ParentID && refV1ProofRoot(era, p.Leaf, p.Proof, idx, fc.Filesize) == fc.FileMerkleRoot {
+					return // by the tree definition the altered proof still proves the challenged leaf: not an unsound proof
+				}
+				if a.emit(blk, "v1-proof/"+name+"/era-"+era+suffix, "reject", map[string]string{"leaves": sizeClassLeaves(nLeaves)}, nil) {
+					n++
+					probed = true
+				}
+			}
+			if nLeaves > 1 {
+				mk("other-leaf", func(p *types.StorageProof) bool {
+					j := fv.other(t, idx, "otherLeaf")
+					leaf, path := fv.proof(j)
+					if leaf == p.Leaf && samePath(path, p.Proof) {
+						return false
+					}
+					p.Leaf, p.Proof = leaf, toHashes(path)
+					return true
+				})
+			}
+			mk("leaf-byte-flipped", func(p *types.StorageProof) bool {
+				// flip a byte that carries file data (bytes beyond the end of a partial last leaf are ignored by rule in era C)
+				limit := 64
+				if idx == nLeaves-1 && fc.Filesize%64 != 0 && era != "A" {
+					limit = int(fc.Filesize % 64)
+				}
+				if era == "B" && idx == nLeaves-1 && fc.Filesize%64 == 0 {
+					return false // legacy era-B rule hashes an empty last leaf: leaf bytes are not bound
+				}
+				p.Leaf[rapid.IntRange(0, limit-1).Draw(t, "leafByte")] ^= 0x01
+				return true
+			})
+			mk("path-hash-flipped", func(p *types.StorageProof) bool {
+				if len(p.Proof) == 0 {
 					return false
 				}
+				p.Proof[rapid.IntRange(0, len(p.Proof)-1).Draw(t, "pathIdx")][0] ^= 1
+				return true
+			})
+			mk("path-truncated", func(p *types.StorageProof) bool {
+				if len(p.Proof) == 0 {
+					return false
+				}
+				p.Proof = p.Proof[:len(p.Proof)-1]
+				return true
+			})
+			mk("path-extended", func(p *types.StorageProof) bool {
+				p.Proof = append(p.Proof, types.Hash256{1})
+				return true
+			})
+			mk("other-file-same-index", func(p *types.StorageProof) bool {
+				leaf, path := fv.flipped(idx)
 				p.Leaf, p.Proof = leaf, toHashes(path)
 				return true
 			})
-		}
-		mk("leaf-byte-flipped", func(p *types.StorageProof) bool {
-			// flip a byte that carries file data (bytes beyond the end of a partial last leaf are ignored by rule in era C)
-			limit := 64
-			if idx == nLeaves-1 && fc.Filesize%64 != 0 && era != "A" {
-				limit = int(fc.Filesize % 64)
-			}
-			if era == "B" && idx == nLeaves-1 && fc.Filesize%64 == 0 {
-				return false // legacy era-B rule hashes an empty last leaf: leaf bytes are not bound
-			}
-			p.Leaf[rapid.IntRange(0, limit-1).Draw(t, "leafByte")] ^= 0x01
-			return true
-		})
-		mk("path-hash-flipped", func(p *types.StorageProof) bool {
-			if len(p.Proof) == 0 {
-				return false
-			}
-			p.Proof[rapid.IntRange(0, len(p.Proof)-1).Draw(t, "pathIdx")][0] ^= 1
-			return true
-		})
-		mk("path-truncated", func(p *types.StorageProof) bool {
-			if len(p.Proof) == 0 {
-				return false
-			}
-			p.Proof = p.Proof[:len(p.Proof)-1]
-			return true
-		})
-		mk("path-extended", func(p *types.StorageProof) bool {
-			p.Proof = append(p.Proof, types.Hash256{1})
-			return true
-		})
-		mk("other-file-same-index", func(p *types.StorageProof) bool {
-			leaf, path := fv.flipped(idx)
-			p.Leaf, p.Proof = leaf, toHashes(path)
-			return true
-		})
-		// proof presented for another live contract (its own challenge / root differ)
-		for _, o := range a.G.C.Store.SortedFC() {
-			if o.ID != e.ID && o.FileContract.WindowStart <= a.Child && o.FileContract.WindowStart >= 1 && o.FileContract.WindowEnd >= a.Child && o.FileContract.FileMerkleRoot != fc.FileMerkleRoot && o.FileContract.Filesize > 0 {
-				used := false
-				for _, tx := range a.Honest.Transactions {
-					for _, p := range tx.StorageProofs {
-						used = used || p.ParentID == o.ID
+			// proof presented for another live contract (its own challenge / root differ)
+			for _, o := range a.G.C.Store.SortedFC() {
+				if o.ID != e.ID && o.FileContract.WindowStart <= a.Child && o.FileContract.WindowStart >= 1 && o.FileContract.WindowEnd >= a.Child && o.FileContract.FileMerkleRoot != fc.FileMerkleRoot && o.FileContract.Filesize > 0 {
+					used := false
+					for _, tx := range a.Honest.Transactions {
+						for _, p := range tx.StorageProofs {
+							used = used || p.ParentID == o.ID
+						}
+						for _, r := range tx.FileContractRevisions {
+							used = used || r.ParentID == o.ID
+						}
 					}
-					for _, r := range tx.FileContractRevisions {
-						used = used || r.ParentID == o.ID
+					if used {
+						continue
 					}
+					oid, ofc := o.ID, o.FileContract
+					mk("other-contract", func(p *types.StorageProof) bool {
+						// the proof must really be unsound for the other contract: in the two legacy eras only a prefix of the
+						// last leaf is bound (one byte of a 1-byte file), so a foreign leaf can coincide with it by chance
+						oidx := ref.ChallengeIndex(ofc.Filesize, a.G.C.Store.CI[ofc.WindowStart-1].ChainIndex.ID, oid)
+						if refV1ProofRoot(era, p.Leaf, p.Proof, oidx, ofc.Filesize) == ofc.FileMerkleRoot {
+							return false
+						}
+						p.ParentID = oid
+						return true
+					})
+					break
 				}
-				if used {
-					continue
-				}
-				oid, ofc := o.ID, o.FileContract
-				mk("other-contract", func(p *types.StorageProof) bool {
-					// the proof must really be unsound for the other contract: in the two legacy eras only a prefix of the
-					// last leaf is bound (one byte of a 1-byte file), so a foreign leaf can coincide with it by chance
-					oidx := ref.ChallengeIndex(ofc.Filesize, a.G.C.Store.CI[ofc.WindowStart-1].ChainIndex.ID, oid)
-					if refV1ProofRoot(era, p.Leaf, p.Proof, oidx, ofc.Filesize) == ofc.FileMerkleRoot {
-						return false
-					}
-					p.ParentID = oid
-					return true
-				})
-				break
 			}
 		}
-		break
+		if probed {
+			break
+		}
 	}
 	// ---- v1 revisions breaking a rule (honestly signed). The revision number is compared with the contract as
 	// it stands: the stored contract, one formed earlier in this block, or its latest in-block revision.
